@@ -249,10 +249,11 @@ def raiser_episode(seed):
             pass
     Peeker(d)
     Guard(d)
-    out = {"C01": [], "C02": [], "C05": [], "C06": [], "C10": [], "C13": []}
+    out = {"C01": [], "C02": [], "C05": [], "C06": [], "C10": [], "C13": [], "C12": []}
     last_time, last_completed = None, set()
     tr = gen.Tracker(jobs)
     recorded = []
+    reset_after_raise = seed % 3 == 0
     while not tr.done():
         j, p, m = gen.gen_valid_request(r, tr)
         op = inst.jobs[j][p]
@@ -264,6 +265,22 @@ def raiser_episode(seed):
             d.dispatch(op, None if m == "none" else int(m))
         except RuntimeError:
             raised = True
+        if raised and reset_after_raise:
+            # the caller gives up on the episode right after the failed dispatch: reset() makes everything as new
+            d.reset()
+            if any(d.schedule.schedule) or any(d.machine_next_available_time) or any(d.job_next_operation_index) or \
+                    any(d.job_next_available_time) or mk.rewards or idle.rewards or hist.history:
+                out["C12"].append(("reset-after-raise", f"reset() right after a dispatch that a user observer aborted by raising: schedule "
+                                   f"{[len(ms) for ms in d.schedule.schedule]}, job index {list(d.job_next_operation_index)}, "
+                                   f"{len(mk.rewards)}/{len(idle.rewards)} rewards, {len(hist.history)} history entries are left"))
+            else:
+                fresh = jsl.Dispatcher(inst)
+                first = inst.jobs[0][0]
+                d.dispatch(first, first.machines[0])
+                fresh.dispatch(first, first.machines[0])
+                if dump_schedule(d.schedule.schedule) != dump_schedule(fresh.schedule.schedule):
+                    out["C12"].append(("reset-after-raise", "after that reset the first dispatch gives another schedule than on a fresh dispatcher"))
+            return out
         lists = d.schedule.schedule
         sop = next((x for ms in lists for x in ms if x.operation is op), None)
         what = f"`dispatch(op {op.operation_id}, machine {mm})`" + (" (the user's observer raised, the caller went on)" if raised else "")
@@ -583,6 +600,33 @@ def self_unsub_episode(seed):
                 self.dispatcher.unsubscribe(self)
                 self.left = True
 
+    # two DISTINCT user observers that compare equal (value equality) on a dispatcher of their own: both are subscribed, both notified
+    class Tally(jsl.DispatcherObserver):
+        _is_singleton = False
+
+        def __init__(self, dispatcher):
+            self.n = 0
+            super().__init__(dispatcher)
+
+        def __eq__(self, other):
+            return isinstance(other, Tally)
+
+        def __hash__(self):
+            return 7
+
+        def update(self, scheduled_operation):
+            self.n += 1
+
+        def reset(self):
+            self.n = 0
+    d_eq = jsl.Dispatcher(inst)
+    t1, t2 = Tally(d_eq), Tally(d_eq)
+    first_op = inst.jobs[0][0]
+    d_eq.dispatch(first_op, first_op.machines[0])
+    if (t1.n, t2.n) != (1, 1) or sum(1 for s_ in d_eq.subscribers if isinstance(s_, Tally)) != 2:
+        out["C10"].append(("equal-observers", f"two distinct user observers that compare equal were subscribed to one dispatcher: after one "
+                           f"dispatch they were notified {t1.n} and {t2.n} times"))
+        return out
     # the one-shot observer at a random position among the others
     makers = [lambda: Counter(d), lambda: jsl.HistoryObserver(d), lambda: MakespanReward(d), lambda: IdleTimeReward(d), lambda: Counter(d)]
     r.shuffle(makers)
